@@ -49,13 +49,32 @@ ALT = [False]
 ALT_BUFFERS = {}        # protocol token -> the bytearray handed to the library (re-used by the second run of run_alt)
 
 
+ALT_OBJECTS = {}        # node token -> the node object built from it (the second run of run_alt works on the SAME object)
+ALT_WIPED = set()       # tokens whose buffer the harness itself overwrote (see _settle); restored on their next use
+
+
 def unhex(s):
     b = b"" if s == "-" else bytes.fromhex(s)
     if not ALT[0]:
         return b
     if s not in ALT_BUFFERS:
         ALT_BUFFERS[s] = bytearray(b)
+    elif s in ALT_WIPED:
+        ALT_BUFFERS[s][:] = b
+        ALT_WIPED.discard(s)
     return ALT_BUFFERS[s]
+
+
+def _settle(obj):
+    """alternative forms only: the caller OVERWRITES its byte buffers as soon as the constructor / function it handed
+    them to has returned (what careful callers do with secrets).  Used only where the unchanged library copies what it
+    is given (keys, master-key generation, seed-based wallets) — node constructors keep a reference and are left alone."""
+    if ALT[0]:
+        for s_, buf in ALT_BUFFERS.items():
+            if s_ not in ALT_WIPED and len(buf):
+                buf[:] = b"\x5a" * len(buf)
+                ALT_WIPED.add(s_)
+    return obj
 
 
 def unstr(s):
@@ -158,9 +177,24 @@ def unnode(s):
     cls, key, chain, depth, index, t, fp = s.split(":")
     klass = bip32.PrvKeyNode if cls == "P" else bip32.PubKeyNode
     if ALT[0]:
+        if s in ALT_OBJECTS:
+            return ALT_OBJECTS[s]
         klass = _SubPrv if cls == "P" else _SubPub
-    return klass(key=unhex(key), chain_code=unhex(chain), index=int(index), depth=int(depth),
-                 testnet=unbool(t), parent_fingerprint=None if fp == "none" else unhex(fp))
+    nd = klass(key=unhex(key), chain_code=unhex(chain), index=int(index), depth=int(depth),
+               testnet=unbool(t), parent_fingerprint=None if fp == "none" else unhex(fp))
+    if ALT[0]:
+        ALT_OBJECTS[s] = nd
+    return nd
+
+
+def _alt_master(w):
+    """alternative forms only: the wallet's root node rebuilt by its constructor from bytearray copies of its fields"""
+    m = w.master
+    w.master = type(m)(key=bytearray(m.key), chain_code=bytearray(m.chain_code), index=m.index, depth=m.depth,
+                       testnet=m.testnet, parent_fingerprint=m.parsed_parent_fingerprint
+                       if m.parsed_parent_fingerprint is None else bytearray(m.parsed_parent_fingerprint))
+    w.master.parsed_version = m.parsed_version
+    return w
 
 
 class _Prf:
@@ -206,25 +240,59 @@ class _Urandom:
         self._r._urandom, os.urandom = self.saved
 
 
+_script_route = [0]
+
+
+def _script_of(cmds):
+    """Script(cmds) — or, in the alternative forms, the same script ASSEMBLED IN PLACE: elements appended / inserted /
+    assigned on script.cmds, or put into the caller's own list after it was handed to the constructor (the unchanged
+    class keeps that list)"""
+    if not ALT[0]:
+        return script.Script(cmds)
+    _script_route[0] += 1
+    r = _script_route[0] % 4
+    if r == 0:
+        sc = script.Script([])
+        for c in cmds:
+            sc.cmds.append(c)
+    elif r == 1:
+        sc = script.Script([])
+        sc.cmds.extend(cmds)
+    elif r == 2:
+        sc = script.Script([0] * len(cmds))
+        for i, c in enumerate(cmds):
+            sc.cmds[i] = c
+    else:
+        own = []
+        sc = script.Script(own)
+        own[:] = cmds
+    return sc
+
+
 def make_wallet(spec, cls=None):
     cls = cls or pw.PaperWallet
     parts = spec.split(":")
     kind = parts[0]
     if kind == "mn":
         _, mr, _mn, pr, _pn, t = parts
+        if ALT[0]:                          # alternative form: positional arguments
+            return cls.from_mnemonic(unstr(mr), unstr(pr), unbool(t))
         return cls.from_mnemonic(mnemonic=unstr(mr), password=unstr(pr), testnet=unbool(t))
     if kind == "ent":
         _, e, pr, _pn, t = parts
+        if ALT[0]:
+            return cls.from_entropy_hex(unstr(e), unstr(pr), unbool(t))
         return cls.from_entropy_hex(entropy_hex=unstr(e), password=unstr(pr), testnet=unbool(t))
     if kind == "seedb":
         _, sd, t = parts
-        return cls.from_bip39_seed_bytes(bip39_seed=unhex(sd), testnet=unbool(t))
+        return _settle(cls.from_bip39_seed_bytes(bip39_seed=unhex(sd), testnet=unbool(t)))
     if kind == "seedh":
         _, sd, t = parts
         return cls.from_bip39_seed_hex(bip39_seed=unstr(sd), testnet=unbool(t))
     if kind == "raw":
         _, sd, nt, wt = parts
-        return cls(master=bip32.PrvKeyNode.master_key(bip39_seed=unhex(sd), testnet=unbool(nt)), testnet=unbool(wt))
+        return cls(master=_settle(bip32.PrvKeyNode.master_key(bip39_seed=unhex(sd), testnet=unbool(nt))),
+                   testnet=unbool(wt))
     if kind == "xkey":
         return cls.from_extended_key(extended_key=unstr(parts[1]))
     if kind == "rawx":      # class constructor on a PARSED extended key: node flag and wallet flag chosen separately
@@ -293,9 +361,9 @@ def _run(tok):
         return hx(helper.b58decode_addr(unstr(a[0])))
     # C19
     if op == "scr_ser":
-        return hx(script.Script(unlist(uncmd, a[0])).serialize())
+        return hx(_script_of(unlist(uncmd, a[0])).serialize())
     if op == "scr_raw":
-        return hx(script.Script(unlist(uncmd, a[0])).raw_serialize())
+        return hx(_script_of(unlist(uncmd, a[0])).raw_serialize())
     if op == "scr_parse":
         s = io.BytesIO(unhex(a[0]))
         if len(a) > 1:
@@ -378,7 +446,7 @@ def _run(tok):
         return "L " + " / ".join(nodeS(c) for c in cs) if cs else "L"
     if op == "master":
         with _Prf(a[2]):
-            return nodeS(bip32.PrvKeyNode.master_key(bip39_seed=unhex(a[0]), testnet=unbool(a[1])))
+            return nodeS(_settle(bip32.PrvKeyNode.master_key(bip39_seed=unhex(a[0]), testnet=unbool(a[1]))))
     # C07
     if op == "xk_ser":
         nd = unnode(a[0]).derive_path(_seq(unlist(int, a[1])))
@@ -401,12 +469,12 @@ def _run(tok):
         return boolS(unnode(a[0]) == unnode(a[1]))
     # C09
     if op == "priv_new":
-        k = keys.PrivateKey(unhex(a[0]))
+        k = _settle(keys.PrivateKey(unhex(a[0])))
         return " ".join([hx(bytes(k)), hx(k.K.sec(True)), hx(k.K.sec(False))])
     if op == "priv_int":
         return hx(bytes(keys.PrivateKey(int(a[0]))))
     if op == "wif":
-        return sx(keys.PrivateKey(unhex(a[0])).wif(compressed=unbool(a[1]), testnet=unbool(a[2])))
+        return sx(_settle(keys.PrivateKey(unhex(a[0]))).wif(compressed=unbool(a[1]), testnet=unbool(a[2])))
     if op == "from_wif":
         return hx(bytes(keys.PrivateKey.from_wif(unstr(a[0]))))
     if op == "wif_cycle":
@@ -417,7 +485,7 @@ def _run(tok):
             outs.append(sx(k.wif(compressed=bool(c), testnet=bool(t))))
         return hx(bytes(k)) + " " + " ".join(outs)
     if op == "sec_parse":
-        K = keys.PublicKey.parse(unhex(a[0]))
+        K = _settle(keys.PublicKey.parse(unhex(a[0])))
         return hx(K.sec(True)) + " " + hx(K.sec(False))
     # C11
     if op == "b32_enc":
@@ -465,7 +533,7 @@ def _run(tok):
         w = bw.BaseWallet(master=bip32.PubKeyNode(key=unhex(a[1]), chain_code=bytes(32), testnet=t), testnet=t)
         return sx(_none_err(addr_fn(w, a[0])(w.master)))
     if op == "pk_addr":
-        K = keys.PublicKey.parse(unhex(a[0]))
+        K = _settle(keys.PublicKey.parse(unhex(a[0])))
         return sx(_none_err(K.address(compressed=unbool(a[1]), testnet=unbool(a[2]), addr_type=a[3])))
     if op == "pk_seq":
         K = keys.PublicKey.parse(unhex(a[0]))          # ONE object for the whole sequence
@@ -509,6 +577,8 @@ def _run(tok):
     # wallet level
     if op == "generate":
         w = make_wallet(a[0])
+        if ALT[0]:                          # alternative form: positional arguments, the interval as a list
+            return jsonS(w.generate(int(a[1]), [int(a[2]), int(a[3])]))
         return jsonS(w.generate(account=int(a[1]), interval=(int(a[2]), int(a[3]))))
     if op == "paranoia":
         w = make_wallet(a[0])
@@ -674,6 +744,8 @@ def _run(tok):
         return cli_run(a[0], unhex(a[1]), [] if a[2] == "=" else [unstr(x) for x in a[2].split(",")])[0]
     if op == "hist":
         w = make_wallet(a[0])
+        if ALT[0]:
+            _alt_master(w)
         return " ; ".join(hist_run(w, a[1].split(";")))
     raise KeyError("unknown op " + op)
 
@@ -805,6 +877,12 @@ class HistCtx:
         self.nodes = [w.master]
         self.gens = []
         self.path_buf = []      # ONE caller-owned list handed to derive_path again and again, modified in place
+        self.export_dir = None
+
+    def __del__(self):
+        if getattr(self, "export_dir", None):
+            import shutil
+            shutil.rmtree(self.export_dir, ignore_errors=True)
 
     def do(self, opstr):
         try:
@@ -862,6 +940,18 @@ class HistCtx:
             return "t" + sx(_bip85_call(w.bip85, app, int(t[2]), int(t[3])))
         if k == "rep":
             return jsonS(w.generate(account=int(t[1]), interval=(int(t[2]), int(t[3]))))
+        if k == "exp":
+            # the report is EXPORTED to the client's one output file (the same path for the whole history: a later,
+            # shorter export lands on an earlier, longer one) and the file is read back and parsed
+            import json
+            import tempfile
+            if getattr(self, "export_dir", None) is None:
+                self.export_dir = tempfile.mkdtemp(prefix="verif_hist_")
+            path = os.path.join(self.export_dir, "wallet.json")
+            w.export_wallet(file_path=path, indent=4 if int(t[3]) > 1 else None,
+                            data=w.generate(account=int(t[1]), interval=(int(t[2]), int(t[3]))))
+            with open(path, newline="") as f:
+                return jsonS(json.loads(f.read()))
         if k == "was":
             import json
             return jsonS(json.loads(w.wasabi_json()))
@@ -881,6 +971,18 @@ def hist_run(w, ops):
 
 
 def _bip85_call(b, app, param, index):
+    if ALT[0]:
+        # alternative form: the same request with POSITIONAL arguments
+        if app == "mnemonic":
+            return b.bip39_mnemonic(param, index)
+        if app == "wif":
+            return b.wif(index)
+        if app == "xprv":
+            return b.xprv(index)
+        if app == "hex":
+            return b.hex(param, index)
+        if app == "pwd":
+            return b.pwd(param, index)
     if app == "mnemonic":
         return b.bip39_mnemonic(word_count=param, index=index)
     if app == "wif":
@@ -924,6 +1026,8 @@ def run_alt(line):
     objects, the second answer is returned: a call that modifies the caller's buffers gives itself away"""
     ALT[0] = True
     ALT_BUFFERS.clear()
+    ALT_OBJECTS.clear()
+    ALT_WIPED.clear()
     try:
         first = run_plain(line)
         second = run_plain(line)
@@ -931,6 +1035,8 @@ def run_alt(line):
     finally:
         ALT[0] = False
         ALT_BUFFERS.clear()
+        ALT_OBJECTS.clear()
+        ALT_WIPED.clear()
 
 
 def run_thread(line):
@@ -940,6 +1046,36 @@ def run_thread(line):
     th.start()
     th.join()
     return box[0] if box else "err"
+
+
+def run_fork(line):
+    """the same operation executed in a child process created by os.fork() AFTER the library was imported (what a
+    multiprocessing fork worker or a pre-fork server does)"""
+    if not hasattr(os, "fork"):
+        return run_plain(line)
+    r, w = os.pipe()
+    pid = os.fork()
+    if pid == 0:
+        code = 0
+        try:
+            os.close(r)
+            data = run_plain(line).encode()
+            while data:
+                data = data[os.write(w, data):]
+        except BaseException:
+            code = 1
+        finally:
+            os._exit(code)
+    os.close(w)
+    chunks = []
+    while True:
+        c = os.read(r, 1 << 16)
+        if not c:
+            break
+        chunks.append(c)
+    os.close(r)
+    os.waitpid(pid, 0)
+    return b"".join(chunks).decode() or "err"
 
 
 def run_plain(line):
